@@ -4,7 +4,7 @@
    password), TOML deserialisation, the process exit status and the TLS transport are outside
    the model and decided per run on the real binary (L2). *)
 From IRC Require Import Str Wild Glob Parse Reply State Handlers Step Config.
-From IRCP Require Import ConfigP ChanP.
+From IRCP Require Import ConfigP ChanP WelcomeP JoinP.
 From stdpp Require Import gmap.
 Open Scope N_scope.
 
@@ -48,7 +48,29 @@ Theorem C20_default_user_modes : forall cfg i c name real,
   um_registered m = um_registered (cfg_default_umodes cfg) || c_registered c.
 Proof. intros. cbn. repeat split. Qed.
 
+(* the welcome burst of a completed registration is built from the configuration: 001 names the
+   configured network, 002/004 the configured server name, then ISUPPORT (with the configured
+   network and max_joins), LUSERS, the configured MOTD, and 221 with the default user modes *)
+Theorem C20_welcome_burst : forall cfg verify i s c r nick,
+  c_auth c = false ->
+  authenticate cfg verify i s c = Ok r -> c_auth (h_conn r) = true -> c_nick c = Some nick ->
+  exists name registered lus,
+    c_name c = Some name /\
+    let c1 := c_with_auth true registered (c_sender_taken c) c in
+    let c2 := c_with_auth true registered true c in
+    let u := new_user cfg i c1 name (default [] (c_real c)) in
+    let client := client_name c2 in
+    h_conn r = c2 /\ h_sh r = st_add_user nick u s /\ lusers_lines (st_add_user nick u s) client = Ok lus /\
+    h_out r = mine cfg i ([ rpl_welcome client (cfg_network cfg) nick name (c_host c);
+                            rpl_yourhost client (cfg_name cfg) (version_str cfg);
+                            rpl_created client (lit "T");
+                            rpl_myinfo client (cfg_name cfg) (version_str cfg) ]
+                          ++ isupport_lines cfg client ++ lus ++ motd_lines cfg client
+                          ++ [ rpl_umodeis client (umodes_str (u_modes u)) ]).
+Proof. exact registration_burst. Qed.
+
 Print Assumptions C20_accept_iff.
+Print Assumptions C20_welcome_burst.
 Print Assumptions C20_hash_shape.
 Print Assumptions C20_cli_overrides_file.
 Print Assumptions C20_channels_from_config.
